@@ -55,24 +55,21 @@ func (x *c20SX) rangeStmt(s *ast.RangeStmt, st *c20St) []*c20St {
 
 // indexLoop recognises `for i := 0; i < len(X); i++ { ... X[i] ... }`, the index form of a range loop over X.
 func (x *c20SX) indexLoop(s *ast.ForStmt, st *c20St) ([]*c20St, bool) {
-	init, ok := s.Init.(*ast.AssignStmt)
-	if !ok || init.Tok != token.DEFINE || len(init.Lhs) != 1 || len(init.Rhs) != 1 {
+	sh, ok := x.forShape(s, x.loopLabel(), st)
+	if !ok {
 		return nil, false
 	}
-	if n, ok := constInt(x.info, init.Rhs[0]); !ok || n != 0 {
-		return nil, false
-	}
-	i := objOf(x.info, init.Lhs[0])
-	cond, ok := ast.Unparen(s.Cond).(*ast.BinaryExpr)
-	if !ok || i == nil || cond.Op != token.LSS || objOf(x.info, cond.X) != i {
-		return nil, false
-	}
-	post, ok := s.Post.(*ast.IncDecStmt)
-	if !ok || post.Tok != token.INC || objOf(x.info, post.X) != i {
-		return nil, false
-	}
-	if countAssignsTo(x.info, s.Body, i, s.Body.Pos(), s.Body.End()) > 0 {
-		return nil, false
+	i, start, body := sh.i, sh.start, sh.body
+	cond := &ast.BinaryExpr{X: &ast.Ident{Name: i.Name()}, Op: token.LSS, Y: sh.bound}
+	finish := func(out []*c20St) []*c20St {
+		if sh.outer { // the counter lives on after the loop; its final value is not modelled
+			for _, o := range out {
+				if o.ctl == c20cRun {
+					o.env[i] = c20Unknown("the value of %s after the loop", i.Name())
+				}
+			}
+		}
+		return out
 	}
 	var out []*c20St
 	// `i < len(table)`: the index form of a loop over a constant table
@@ -80,10 +77,13 @@ func (x *c20SX) indexLoop(s *ast.ForStmt, st *c20St) ([]*c20St, bool) {
 		if _, isMap := x.info.TypeOf(X).Underlying().(*types.Map); !isMap {
 			evs := x.ev(X, st)
 			if len(evs) == 1 && evs[0].st.ctl == c20cRun && evs[0].v.k == c20kAgg {
-				return x.unroll(s, s.Body, evs[0].v, evs[0].st, func(n int, c *c20St) {
+				if start != 0 {
+					return nil, false
+				}
+				return finish(x.unroll(s, body, evs[0].v, evs[0].st, func(n int, c *c20St) {
 					x.born(i)
 					c.env[i] = c20V{k: c20kInt, n: int64(n)}
-				}), true
+				})), true
 			}
 		}
 	}
@@ -94,33 +94,18 @@ func (x *c20SX) indexLoop(s *ast.ForStmt, st *c20St) ([]*c20St, bool) {
 		case r.st.ctl != c20cRun:
 			out = append(out, r.st)
 		case r.v.k == c20kLen && r.v.base.k == c20kIn:
-			out = append(out, x.loopOver(s, s.Body, nil, nil, i, *r.v.base, r.st)...)
+			over := *r.v.base
+			if start == 1 {
+				over.tag = "from1" // the first element was handled before the loop (peeled iteration)
+			}
+			out = append(out, x.loopOver(s, body, nil, nil, i, over, r.st)...)
 		case r.v.k == c20kLen && r.v.base.k == c20kNil, r.v.k == c20kInt && r.v.h == nil && r.v.n == 0:
 			out = append(out, r.st) // no iteration
 		default:
 			out = append(out, r.st.abort(s, "`for` loop bounded by %s (only the length of an option-slice or id-slice parameter is understood)", r.v.String()))
 		}
 	}
-	return out, true
-}
-
-// elemValue: the abstract element of an option slice or id slice input inside loop id.
-func (x *c20SX) elemValue(v c20V, id int) (c20V, bool) {
-	if v.k != c20kIn || v.typ == nil || v.h.field != "" {
-		return c20V{}, false
-	}
-	sl, ok := v.typ.Underlying().(*types.Slice)
-	if !ok {
-		return c20V{}, false
-	}
-	elem := sl.Elem()
-	if kind := x.optKind(elem); kind != "" {
-		return c20V{k: c20kObj, tag: "optelem", id: id, h: v.h, name: kind, typ: elem}, true
-	}
-	if b, ok := elem.Underlying().(*types.Basic); ok && b.Info()&types.IsInteger != 0 {
-		return c20V{k: c20kIn, h: &c20Hole{fn: "elem", param: v.h.param, pname: v.h.pname}, typ: elem}, true
-	}
-	return c20V{}, false
+	return finish(out), true
 }
 
 // loopOver summarises a loop over the input slice v; key/value are the range variables (nil for the index
@@ -145,6 +130,15 @@ func (x *c20SX) loopOver(s ast.Node, body *ast.BlockStmt, key, value ast.Expr, i
 	}
 	kind := x.optKind(elem)
 	isID := kind == ""
+	from1 := v.tag == "from1"
+	if from1 {
+		// a loop over the elements after the first: every iteration is a "later" one; an index counted from the
+		// sub-slice (`for i := range ids[1:]`) would not be the element's position
+		if id, isIdent := key.(*ast.Ident); !isID || (key != nil && !(isIdent && id.Name == "_")) {
+			return []*c20St{st.abort(s, "loop over the tail of %s with an index variable or over options", v.String())}
+		}
+		st.facts[fmt.Sprintf("notfirst:#%d", id)] = true
+	}
 	pre := st.clone()
 	since := x.tick
 	// loop variables
@@ -177,6 +171,7 @@ func (x *c20SX) loopOver(s ast.Node, body *ast.BlockStmt, key, value ast.Expr, i
 	nEvents := len(st.events)
 	var out, ends []*c20St
 	for _, o := range x.block(body.List, []*c20St{st}) {
+		x.ownBranch(o, s)
 		switch o.ctl {
 		case c20cRun, c20cCont:
 			ends = append(ends, o)
@@ -201,7 +196,7 @@ func (x *c20SX) loopOver(s ast.Node, body *ast.BlockStmt, key, value ast.Expr, i
 	}
 	var post *c20St
 	if isID {
-		post = x.sumIDLoop(s, since, id, v, pre, ends)
+		post = x.sumIDLoop(s, since, id, v, pre, ends, from1)
 	} else {
 		post = x.sumOptLoop(s, since, id, kind, v, pre, ends)
 	}
@@ -266,7 +261,7 @@ func (x *c20SX) sumOptLoop(s ast.Node, since, id int, kind string, v c20V, pre *
 	return pre
 }
 
-func (x *c20SX) sumIDLoop(s ast.Node, since, id int, v c20V, pre *c20St, ends []*c20St) *c20St {
+func (x *c20SX) sumIDLoop(s ast.Node, since, id int, v c20V, pre *c20St, ends []*c20St, from1 bool) *c20St {
 	atom := fmt.Sprintf("notfirst:#%d", id)
 	var buf c20Place
 	var first, later *c20Sym
@@ -284,6 +279,11 @@ func (x *c20SX) sumIDLoop(s ast.Node, since, id int, v c20V, pre *c20St, ends []
 			nv, _ := e.at(o)
 			var app c20Sym
 			switch {
+			case from1 && (old.k == c20kBytes || old.k == c20kStr) && nv.k == old.k && c20IsFirstElem(c20MergeLits(old.sym), v) && c20HasPrefix(nv.sym, old.sym):
+				// the first element was written before the loop (peeled iteration)
+				app = nv.sym[len(old.sym):]
+			case from1:
+				return pre.abort(s, "the loop over the elements after the first changes %s from %s to %s (understood: a buffer holding exactly the first id, extended by separator and id)", o.text(), old.String(), nv.String())
 			case old.k == c20kBytes && nv.k == c20kBytes && len(old.sym) == 0:
 				app = nv.sym
 			case old.k == c20kStr && nv.k == c20kStr && len(c20MergeLits(old.sym)) == 0:
@@ -309,6 +309,13 @@ func (x *c20SX) sumIDLoop(s ast.Node, since, id int, v c20V, pre *c20St, ends []
 				return pre.abort(s, "the id loop appends different text on paths that do not differ by `first iteration or not`")
 			}
 		}
+	}
+	if from1 && !buf.none() && later != nil {
+		// the peeled first iteration wrote the first id alone
+		old, _ := pre.at(buf)
+		h0 := *c20MergeLits(old.sym)[0].hole
+		h0.fn = "elem"
+		first = &c20Sym{{hole: &h0}}
 	}
 	if buf.none() || first == nil || later == nil {
 		return pre.abort(s, "the id loop does not append to a buffer on every iteration")
@@ -341,38 +348,4 @@ func (x *c20SX) sumIDLoop(s ast.Node, since, id int, v c20V, pre *c20St, ends []
 		return pre.abort(s, "the id loop appends `%s` on the first and `%s` on later iterations; understood: the decimal id, preceded by a constant separator exactly when not first", f.render(nil), l.render(nil))
 	}
 	return pre
-}
-
-// c20MergeLits joins adjacent literal tokens.
-func c20MergeLits(s c20Sym) c20Sym {
-	var out c20Sym
-	for _, t := range s {
-		if t.hole == nil && t.opt == nil {
-			if t.lit == "" {
-				continue
-			}
-			if n := len(out); n > 0 && out[n-1].hole == nil && out[n-1].opt == nil {
-				out[n-1].lit += t.lit
-				continue
-			}
-		}
-		out = append(out, t)
-	}
-	return out
-}
-
-// c20AssignedIn lists the variables assigned (=, +=, ...) by identifier inside n.
-func c20AssignedIn(info *types.Info, n ast.Node) map[types.Object]bool {
-	out := map[types.Object]bool{}
-	ast.Inspect(n, func(m ast.Node) bool {
-		if as, ok := m.(*ast.AssignStmt); ok {
-			for _, l := range as.Lhs {
-				if o := objOf(info, l); o != nil {
-					out[o] = true
-				}
-			}
-		}
-		return true
-	})
-	return out
 }
